@@ -124,13 +124,15 @@ let () =
            let out = parse_side (String.sub line (k + 1) (String.length line - k - 1)) in
            let c = decode_case inp in
            let observed = decode_result out in
-           let modelled = run_case c in
+           (* outside the length bound A1 the model is not evaluated (see Spec/CaseOk.v, corr_verdict) *)
+           let inb = lens_okb c in
+           let modelled = if inb then run_case c else OutOfFuel in
            if case_okb c then incr in_scope;
-           let corr = result_eqb modelled observed in
-           let prop = if do_prop || show_all then prop_case c observed else true in
+           let corr = if inb then result_eqb modelled observed else corr_verdict c observed in
+           let prop = if do_prop || show_all then prop_verdict c observed else true in
            if show_all then
              Printf.printf "CASE %d corr=%b prop=%b\n  model:    %s\n  expected: %s\n" !total corr prop
-               (show_result modelled) (show_result (spec_show c))
+               (show_result modelled) (if inb then show_result (spec_show c) else "panic, abort, error, or the requested canonical vector (beyond_ok)")
            else begin
              if not corr then begin
                incr corr_fail;
@@ -138,7 +140,8 @@ let () =
              end;
              if not prop then begin
                incr prop_fail;
-               Printf.printf "PROP %d expected= %s\n" !total (show_result (spec_show c))
+               if inb then Printf.printf "PROP %d expected= %s\n" !total (show_result (spec_show c))
+               else Printf.printf "PROP %d expected= a panic, abort or error, or the requested canonical vector (length argument beyond 2^62: Spec/CaseOk.v beyond_ok)\n" !total
              end
            end
        end
